@@ -2556,7 +2556,17 @@ def rule_err_frame(prog):
         if escaping:
             for sid, tnames in sorted(escaping.items(), key=lambda kv: sites[kv[0]][1]["sp"]):
                 fb, x = sites[sid]
-                out.add(fb["d"], "the error of an expect() is collected inside the Reference it was counted in", False, c.loc(x["sp"]),
+                # (named by role: the message the expect() reports and the node types it escapes from - the function that holds the
+                # call may be renamed or moved)
+                msg_ = []
+                for a_ in x.get("args") or []:
+                    for y in hir.nodes(a_):
+                        if y.get("k") == "Path" and "ParseErrorMessage::" in (y["res"].get("ctor_of") or ""):
+                            msg_.append(last(y["res"]["ctor_of"]))
+                        if y.get("k") == "Lit" and y["lit"].get("k") == "str":
+                            msg_.append(str(y["lit"].get("v")))
+                item_ = "expect(%s) below %s" % (" ".join(msg_) or "?", "/".join(sorted(set(tnames))))
+                out.add(item_, "the error of an expect() is collected inside the Reference it was counted in", False, c.loc(x["sp"]),
                         "no info(..) stands between this expect() and the parser of %s, which runs inside a Reference of its own: the error "
                         "position is counted from the first token of the %s but taken over by the enclosing node, which counts from its own "
                         "first token - `f(x, 1 + )` reports `expected expression` behind `f(`, in front of the innocent first argument"
